@@ -29,6 +29,7 @@ CONSTANTS
     Times, Deltas, Steps,   \* argument grids of InstallAt / InstallAfter / Run
     TickSteps,      \* argument grid of Tick (the clock moves while the loop is not running)
     MaxLevel,       \* bound on behaviour length for exhaustive checking
+    MgrAtStart,     \* BOOLEAN: a task manager exists from the beginning (FALSE: tasks are installed before it is created)
     DropBatchOnRaise \* named deviation (finding F8): a raising deferred function ends the pass and the
                      \* rest of its batch is lost.  FALSE = the intended design (and the repaired code).
 
@@ -45,9 +46,11 @@ VARIABLES
     calledLog,  \* history: every function ever called, in order
     act,        \* the step that produced this state (makes state-graph dumps self-describing)
     TaskRaises, \* which tasks raise (chosen once, in Init)
-    FnRaises    \* which deferred functions raise (chosen once, in Init)
+    FnRaises,   \* which deferred functions raise (chosen once, in Init)
+    mgr,        \* the task manager exists (task._task_manager)
+    early       \* tasks installed before it existed, in the order of the calls (task._unscheduled_tasks)
 
-vars == <<now, q, sched, due, instAt, defq, out, called, submitted, calledLog, act, TaskRaises, FnRaises>>
+vars == <<now, q, sched, due, instAt, defq, out, called, submitted, calledLog, act, TaskRaises, FnRaises, mgr, early>>
 NONE == -1
 
 ----------------------------------------------------------------------------
@@ -67,8 +70,9 @@ Init ==
     /\ defq = <<>> /\ out = <<>> /\ called = <<>> /\ submitted = <<>> /\ calledLog = <<>>
     /\ act = [op |-> "init", k |-> 0, a |-> 0]
     /\ TaskRaises \in TaskRaisesSets /\ FnRaises \in FnRaisesSets
+    /\ mgr = MgrAtStart /\ early = <<>>
 
-Quiet == out' = <<>> /\ called' = <<>> /\ UNCHANGED <<calledLog, TaskRaises, FnRaises>>
+Quiet == out' = <<>> /\ called' = <<>> /\ UNCHANGED <<calledLog, TaskRaises, FnRaises, mgr, early>>
 
 InstallAt(k, t) ==
     /\ k \notin Rec
@@ -160,7 +164,7 @@ Run(d) ==
         /\ out' = r.out /\ called' = r.called /\ submitted' = r.submitted
         /\ calledLog' = calledLog \o r.called
         /\ act' = [op |-> "run", k |-> 0, a |-> d]
-        /\ UNCHANGED <<TaskRaises, FnRaises>>
+        /\ UNCHANGED <<TaskRaises, FnRaises, mgr, early>>
 
 \* the clock moves on without a pass of the loop (it is waiting in select, another thread is about to install a timer):
 \* what is installed afterwards is relative to the clock as it is then
@@ -168,13 +172,39 @@ Tick(d) ==
     /\ now' = now + d
     /\ act' = [op |-> "tick", k |-> 0, a |-> d] /\ Quiet /\ UNCHANGED <<q, sched, due, instAt, defq, submitted>>
 
-Next ==
+\* ---- before a task manager exists (module-level tasks, tasks installed from constructors before core.run) ----------
+\* install_task only remembers the task; TaskManager.__init__ installs what was remembered, in the order of the calls
+QuietEarly == out' = <<>> /\ called' = <<>> /\ UNCHANGED <<now, q, sched, defq, submitted, calledLog, TaskRaises, FnRaises, mgr>>
+EarlyAt(k, t) ==
+    /\ ~mgr /\ k \notin Rec
+    /\ early' = Append(early, k) /\ due' = [due EXCEPT ![k] = t] /\ instAt' = [instAt EXCEPT ![k] = now]
+    /\ act' = [op |-> "at", k |-> k, a |-> t] /\ QuietEarly
+EarlyRec(k) ==
+    /\ ~mgr /\ k \in Rec
+    /\ early' = Append(early, k) /\ instAt' = [instAt EXCEPT ![k] = now] /\ UNCHANGED due
+    /\ act' = [op |-> "rec", k |-> k, a |-> 0] /\ QuietEarly
+RECURSIVE Boot(_, _, _)
+Boot(r, lst, i) ==
+    IF i > Len(lst) THEN r
+    ELSE LET k == lst[i]
+             t == IF k \in Rec THEN NextSlot(now, Interval[k], Offset[k]) ELSE r.due[k]
+         IN  Boot([r EXCEPT !.q = Insert(Remove(@, k), t, k), !.sched[k] = TRUE, !.due[k] = t], lst, i + 1)
+Start ==
+    /\ ~mgr /\ mgr' = TRUE /\ early' = <<>>
+    /\ LET r == Boot([q |-> q, sched |-> sched, due |-> due], early, 1) IN q' = r.q /\ sched' = r.sched /\ due' = r.due
+    /\ act' = [op |-> "start", k |-> 0, a |-> 0]
+    /\ out' = <<>> /\ called' = <<>> /\ UNCHANGED <<now, instAt, defq, submitted, calledLog, TaskRaises, FnRaises>>
+
+LateNext ==
     \/ \E d \in TickSteps : Tick(d)
     \/ \E k \in K, t \in Times : InstallAt(k, t)
     \/ \E k \in K, d \in Deltas : InstallAfter(k, d)
     \/ \E k \in K : InstallRec(k) \/ Suspend(k) \/ Resume(k)
     \/ \E f \in F : Defer(f)
     \/ \E d \in Steps : Run(d)
+Next ==
+    \/ ~mgr /\ (Start \/ \E k \in K : EarlyRec(k) \/ \E t \in Times : EarlyAt(k, t))
+    \/ mgr /\ LateNext
 
 Spec == Init /\ [][Next]_vars
 Bound == TLCGet("level") <= MaxLevel
